@@ -266,6 +266,44 @@ Section LoopProofs.
     - intros E. injection E as <- <-. split; [apply I2|]. split; [exact Neli|]. split; [exact Geli|]. split; reflexivity.
   Qed.
 
+  (* where the members of the population handed to _update_population come from: the previous
+     population, the archive, or objects created during this pass *)
+  Theorem evolve_drawn k s s' newpop :
+    evolve k s = Some (s', newpop) ->
+    forall u, In u newpop -> In u (cs_pop s) \/ In u (a_items (cs_arch s)) \/ length (cs_heap s) <= u.
+  Proof.
+    unfold Compose.evolve.
+    destruct (regularize k (cs_heap s) (cs_pop s)) as [c1 sel] eqn:Er.
+    destruct (reproduce k (cs_heap s ++ c1) (cs_aux s) sel) as [[[c2 new]|] x'] eqn:Ep; [|discriminate].
+    set (h0 := cs_heap s) in *. set (h1 := h0 ++ c1) in *. set (h2 := h1 ++ c2).
+    destruct (H_rep _ _ _ _ _ _ _ Ep) as (_ & Hn).
+    assert (L1 : length h0 <= length h1) by (unfold h1; rewrite app_length; lia).
+    assert (L2 : length h1 <= length h2) by (unfold h2; rewrite app_length; lia).
+    assert (Dnew : forall u, In u new -> In u (cs_pop s) \/ length h0 <= u).
+    { intros u Hu. destruct (Hn u Hu) as (_ & [Hs|[Hf _]]).
+      - destruct (H_reg _ _ _ _ _ Er u Hs) as [Hp|[Hf _]]; [left; exact Hp|right; apply fresh_ids_ge in Hf; exact Hf].
+      - right. apply fresh_ids_ge in Hf. lia. }
+    assert (Dinh : forall u, In u (inherit k h2 (cs_pop s) new) -> In u (cs_pop s) \/ length h0 <= u).
+    { intros u Hu. apply H_inh_incl in Hu. apply in_app_or in Hu as [Hu|Hu]; [left; exact Hu|apply Dnew, Hu]. }
+    assert (Deli : forall u, In u (elitism k h2 (a_items (cs_arch s)) (inherit k h2 (cs_pop s) new)) ->
+                   In u (cs_pop s) \/ In u (a_items (cs_arch s)) \/ length h0 <= u).
+    { intros u Hu. apply H_eli_incl in Hu. apply in_app_or in Hu as [Hu|Hu]; [right; left; exact Hu|].
+      destruct (Dinh u Hu); [left|right; right]; assumption. }
+    destruct (div_due C A X div_freq s); intros E; injection E as <- <-; [|exact Deli].
+    intros u Hu. destruct (H_eval k 2 (h2 ++ div_refill k h2 (div_unique k h2 (elitism k h2 (a_items (cs_arch s)) (inherit k h2 (cs_pop s) new)))
+                 (if negb (length (div_unique k h2 (elitism k h2 (a_items (cs_arch s)) (inherit k h2 (cs_pop s) new))) =? 0) &&
+                     (length (div_unique k h2 (elitism k h2 (a_items (cs_arch s)) (inherit k h2 (cs_pop s) new))) <? div_min)
+                  then div_min - length (div_unique k h2 (elitism k h2 (a_items (cs_arch s)) (inherit k h2 (cs_pop s) new))) else 0))
+                 (div_unique k h2 (elitism k h2 (a_items (cs_arch s)) (inherit k h2 (cs_pop s) new)) ++
+                  fresh_ids C h2 (div_refill k h2 (div_unique k h2 (elitism k h2 (a_items (cs_arch s)) (inherit k h2 (cs_pop s) new)))
+                 (if negb (length (div_unique k h2 (elitism k h2 (a_items (cs_arch s)) (inherit k h2 (cs_pop s) new))) =? 0) &&
+                     (length (div_unique k h2 (elitism k h2 (a_items (cs_arch s)) (inherit k h2 (cs_pop s) new))) <? div_min)
+                  then div_min - length (div_unique k h2 (elitism k h2 (a_items (cs_arch s)) (inherit k h2 (cs_pop s) new))) else 0)))) as (Ei & _).
+    apply Ei in Hu. apply in_app_or in Hu as [Hu|Hu].
+    - apply Deli. apply (proj1 (H_uniq k h2 _)), Hu.
+    - right. right. apply fresh_ids_ge in Hu. lia.
+  Qed.
+
   Lemma Inv_loop fuel : forall k s, Inv s -> Inv (loop fuel k s).
   Proof.
     induction fuel as [|f IH]; intros k s I; simpl; [exact I|].
@@ -435,7 +473,7 @@ Theorem step_admits_sound o : step_admits o = true ->
   NoDup (os_arch_next o) /\ incl (os_arch_next o) (os_arch_prev o ++ os_next o).
 Proof.
   unfold step_admits. intros H.
-  apply andb_true_iff in H as [H _]. apply andb_true_iff in H as [Hm Ha].
+  apply andb_true_iff in H as [H _]. apply andb_true_iff in H as [H _]. apply andb_true_iff in H as [Hm Ha].
   apply andb_true_iff in Hm as [Hn Hf]. apply andb_true_iff in Ha as [Ha _]. apply andb_true_iff in Ha as [Han Has].
   split; [apply nodup_b_sound, Hn|]. split; [|split; [apply nodup_b_sound, Han|]].
   - intros u Hu. rewrite forallb_forall in Hf. specialize (Hf u Hu). apply andb_true_iff in Hf. exact Hf.
@@ -727,6 +765,19 @@ Section EvoProofs.
     destruct (ElitismProofs.elitism_contract_g Selection.worse (es_eparams e) (es_shuffle e)
                 (map (ind_of h) best) (map (ind_of h) new)) as (_ & _ & N & _).
     apply N; rewrite view_uids; assumption.
+  Qed.
+
+  (* the head of the archive is kept whenever keep_n_best elitism applies and something was inherited
+     (C16_elitism_contract, clause 4) - the clause `os_must` of step_admits *)
+  Lemma c_elitism_head k h b best new :
+    Elitism.applies (es_eparams (steps k)) = true -> Elitism.e_type (es_eparams (steps k)) = Elitism.KeepNBest ->
+    1 <= length new -> In b (c_elitism steps k h (b :: best) new).
+  Proof.
+    intros Ap Ty Ln. unfold c_elitism. set (e := steps k).
+    destruct (ElitismProofs.elitism_contract_g Selection.worse (es_eparams e) (es_shuffle e)
+                (map (ind_of h) (b :: best)) (map (ind_of h) new)) as (_ & _ & _ & Hd).
+    specialize (Hd (ind_of h b) Ap). rewrite map_length in Hd. specialize (Hd Ln eq_refl (or_introl Ty)).
+    apply (in_map Selection.uid) in Hd. exact Hd.
   Qed.
 
   (* reproduction: the attempt loop of Evo/Reproduction.v through C16_reproduce_contract; what one
